@@ -22,7 +22,7 @@ func init() {
 			"non-trivial = history length >= 3 with >= 2 distinct operation kinds; distinct by initial source + operation list",
 		Assumptions: []string{"hclsyntax.ParseConfig is the reference reader of the serialised file", "the model is the simple ordered-list semantics the API documents (set = replace in place or append; rename in place; remove)"},
 		Quick:       Plan{Batches: 16, PerBatch: 500, MinNonTrivial: 5000},
-		Thorough:    Plan{Batches: 64, PerBatch: 6000, MinNonTrivial: 100000},
+		Thorough:    Plan{Batches: 64, PerBatch: 6000, MinNonTrivial: 50000},
 		Case:        c12Case,
 	})
 }
